@@ -98,6 +98,10 @@ def find_aliases(fns, spec):
         parent = m.rsplit("::", 1)[0]
         cands = [e for e in extra if e not in alias and cur[e]["sig"] == spec[m]["sig"] and
                  (e.rsplit("::", 1)[0] == parent or alias.get(e.rsplit("::", 1)[0]) == parent or any(e.rsplit("::", 1)[0] == a for a, s in alias.items() if s == parent))]
+        if not cands and "::" in m:
+            # a free function turned into an associated function of a type of the same module (or the reverse): same module, same name, same signature
+            cands = [e for e in extra if e not in alias and cur[e]["sig"] == spec[m]["sig"] and e.split("::")[0] == m.split("::")[0]
+                     and e.rsplit("::", 1)[1] == m.rsplit("::", 1)[1]]
         if len(cands) > 1:
             inv = dict((a, s) for a, s in alias.items())
             want = sorted(spec[m]["callers"])
